@@ -685,13 +685,14 @@ pub fn replay(path: &str) -> i32 {
     let set = set_from_json(src);
     let r0 = match compile_set(&set) { Ok(r) => r, Err(e) => { println!("source no longer compiles: {}", e); return 1; } };
     let b0 = r0.serialize().unwrap();
-    println!("blob: {} bytes, header {}", b0.len(), hex(&b0[..HDR_LEN]));
+    let hdr_len = header_len(&b0);
+    println!("blob: {} bytes, header {}", b0.len(), hex(&b0[..hdr_len]));
     let (c1, r1) = try_deserialize(&b0);
     println!("deserialize(serialize R): {:?}", c1);
     let mut rc = 0;
     if let Some(r1) = r1 {
         let b1 = r1.serialize().unwrap();
-        println!("re-serialized: {} bytes, byte-equal: {}, equal up to map order: {}", b1.len(), b0 == b1, blob_value(&rules_ty(), &b0) == blob_value(&rules_ty(), &b1));
+        println!("re-serialized: {} bytes, byte-equal: {}, equal up to map order: {}", b1.len(), b0 == b1, blob_value(&rules_ty(), &b0, hdr_len) == blob_value(&rules_ty(), &b1, hdr_len));
         if static_dump(&r0) != static_dump(&r1) { println!("STATIC DUMPS DIFFER\n{}\n---\n{}", static_dump(&r0), static_dump(&r1)); rc = 1; }
         if let Some(bufs) = case["buffers_hex"].as_array() {
             for b in bufs { let data = unhex(b.as_str().unwrap_or("")); let (d0, d1) = (scan_dump(&r0, &data), scan_dump(&r1, &data));
@@ -700,11 +701,11 @@ pub fn replay(path: &str) -> i32 {
     } else { rc = 1; }
     let ks: Vec<usize> = (0..b0.len()).collect();
     let out = classify_prefixes(&b0, &ks);
-    let bad: Vec<(usize, &Ocl)> = ks.iter().cloned().zip(out.iter()).filter(|(k, o)| !is_err(o) || (*k >= HDR_LEN && **o != Ocl::DecodeEof) || (*k < HDR_LEN && **o != Ocl::Format)).take(10).collect();
+    let bad: Vec<(usize, &Ocl)> = ks.iter().cloned().zip(out.iter()).filter(|(k, o)| !is_err(o) || (*k >= hdr_len && **o != Ocl::DecodeEof) || (*k < hdr_len && **o != Ocl::Format)).take(10).collect();
     println!("strict prefixes tested: {}; not rejected as predicted: {:?}", ks.len(), bad);
     if bad.iter().any(|(_, o)| !is_err(o)) { rc = 1; }
     let mut blob = b0.clone(); let mut accepted = vec![];
-    for pos in 0..HDR_LEN { for b in 0..=255u8 { if b != b0[pos] { blob[pos] = b; if !is_err(&classify(&blob)) { accepted.push((pos, b)); } } } blob[pos] = b0[pos]; }
+    for pos in 0..hdr_len { for b in 0..=255u8 { if b != b0[pos] { blob[pos] = b; if !is_err(&classify(&blob)) { accepted.push((pos, b)); } } } blob[pos] = b0[pos]; }
     println!("single-byte header alterations accepted or panicking: {:?}", accepted);
     if !accepted.is_empty() { rc = 1; }
     rc
@@ -809,9 +810,9 @@ pub fn canon(t: &Ty, v: Val) -> Val {
     }
 }
 /// payload of a blob as a canonical value (None: the shape does not fit / not fully consumed)
-pub fn blob_value(t: &Ty, blob: &[u8]) -> Option<Val> {
-    if blob.len() < HDR_LEN { return None; }
-    match real_decode(t, &blob[HDR_LEN..]) { DOut::Ok(v, n) if n == blob.len() - HDR_LEN => Some(canon(t, v)), _ => None }
+pub fn blob_value(t: &Ty, blob: &[u8], hdr_len: usize) -> Option<Val> {
+    if blob.len() < hdr_len { return None; }
+    match real_decode(t, &blob[hdr_len..]) { DOut::Ok(v, n) if n == blob.len() - hdr_len => Some(canon(t, v)), _ => None }
 }
 
 // ---------------------------------------------------------------- crash points (c)
@@ -863,7 +864,12 @@ fn corpus_sets() -> Vec<GSet> {
     ]
 }
 
-const HDR_LEN: usize = 12;
+/// Length of the header, observed on the implementation: the shortest prefix of a
+/// valid blob that is no longer reported as "not a rules file" (12 today; the
+/// model's value comes from the source and is compared in Coq).
+fn header_len(blob: &[u8]) -> usize {
+    (0..blob.len().min(64)).find(|&k| classify(&blob[..k]) != Ocl::Format).unwrap_or(12)
+}
 
 fn main() { let args: Vec<String> = std::env::args().skip(1).collect(); std::process::exit(run(&args)); }
 
@@ -965,8 +971,12 @@ pub fn run(args: &[String]) -> i32 {
     let rty = rules_ty();
     let mut rejected = 0usize; let mut done = 0usize; let mut blob_total = 0usize;
     while done < n_sets {
-        let set = if !corpus.is_empty() { corpus.remove(0) } else { gen_set(&mut rng) };
-        let bufs = buffers(&mut rng, &set);
+        // one forked generator per rule set: the sequence of rule sets does not depend on
+        // how many random choices the streams below make (tier options)
+        let mut set_rng = rng.fork();
+        let set = if !corpus.is_empty() { corpus.remove(0) } else { gen_set(&mut set_rng) };
+        let rng = &mut set_rng;
+        let bufs = buffers(rng, &set);
         let src_json = set_json(&set);
         let r0 = match catch(AssertUnwindSafe(|| compile_set(&set))) {
             Ok(Ok(r)) => r,
@@ -980,6 +990,7 @@ pub fn run(args: &[String]) -> i32 {
         let b0 = r0.serialize().expect("serialize");
         let mut b0s = Vec::new(); r0.serialize_into(&mut b0s).expect("serialize_into");
         blob_total += b0.len();
+        let hdr_len = header_len(&b0);
         stats.inc(&format!("b_blob_{}", match b0.len() { 0..=49_999 => "<50K", 50_000..=99_999 => "50-100K", 100_000..=199_999 => "100-200K", _ => "200K+" }));
         let (c1, r1) = try_deserialize(&b0);
         let (mut deser_ok, mut static_eq, mut scans_eq, mut reser_eq, mut stream_eq) = (false, false, false, false, b0 == b0s);
@@ -995,7 +1006,7 @@ pub fn run(args: &[String]) -> i32 {
                 // list them in another order after a round trip: compare up to that order.
                 if b0 == b1 && b1 == b2 { reser_eq = true; stats.inc("b_reserialized_byte_equal"); }
                 else {
-                    let (v0, v1, v2) = (blob_value(&rty, &b0), blob_value(&rty, &b1), blob_value(&rty, &b2));
+                    let (v0, v1, v2) = (blob_value(&rty, &b0, hdr_len), blob_value(&rty, &b1, hdr_len), blob_value(&rty, &b2, hdr_len));
                     reser_eq = v0.is_some() && v0 == v1 && v1 == v2 && b0.len() == b1.len() && b1.len() == b2.len();
                     stats.inc(if reser_eq { "b_reserialized_equal_up_to_map_order" } else { "b_reserialized_DIFFERENT" });
                 }
@@ -1012,7 +1023,7 @@ pub fn run(args: &[String]) -> i32 {
                 }
             } else { detail.push_str("second deserialize (deserialize_from) failed; "); }
         } else { detail.push_str(&format!("deserialize(serialize R) = {:?}; ", c1)); }
-        let hdr = &b0[..HDR_LEN.min(b0.len())];
+        let hdr = &b0[..hdr_len.min(b0.len())];
         let replay = format!("{{\"stream\":\"b-behaviour\",\"source\":{},\"buffers_hex\":[{}],\"deser_ok\":{},\"static_eq\":{},\"scans_eq\":{},\"reser_eq\":{},\"stream_api_eq\":{},\"detail\":{}}}",
             src_json, bufs.iter().map(|b| format!("\"{}\"", hex(b))).collect::<Vec<_>>().join(","), deser_ok, static_eq, scans_eq, reser_eq, stream_eq, json_str(&detail));
         if samples.len() < 4 { samples.push(format!("{{\"stream\":\"b-behaviour\",\"source\":{}}}", src_json)); }
@@ -1051,7 +1062,7 @@ pub fn run(args: &[String]) -> i32 {
             coq_list(&segs, |(lo, hi, o)| format!("({}, {}, {})", coq_n(*lo as u64), coq_n(*hi as u64), coq_ocl(o)))), replay);
 
         // (c) altered header, payload intact
-        let positions: Vec<usize> = if done == 1 { (0..HDR_LEN).collect() } else { vec![rng.below(HDR_LEN as u64) as usize] };
+        let positions: Vec<usize> = if done == 1 { (0..hdr_len).collect() } else { vec![rng.below(hdr_len as u64) as usize] };
         for pos in positions {
             let alts: Vec<u8> = if done == 1 { (0..=255u8).filter(|b| *b != b0[pos]).collect() }
                                 else { (0..24).map(|_| rng.next() as u8).filter(|b| *b != b0[pos]).collect() };
@@ -1066,16 +1077,16 @@ pub fn run(args: &[String]) -> i32 {
         for kind in 0..4 {
             let blob: Vec<u8> = match kind {
                 0 => (0..rng.below(40)).map(|_| rng.next() as u8).collect(),
-                1 => { let mut b = b0.clone(); for x in b.iter_mut().take(HDR_LEN) { *x = rng.next() as u8; } b }
-                2 => { let mut b = b0.clone(); let v = u32::from_le_bytes(b[8..12].try_into().unwrap()); let rv = rng.next() as u32; let nv = *rng.pick(&[v.wrapping_add(1), v.wrapping_sub(1), 0, u32::MAX, v.swap_bytes(), rv]);
-                       b[8..12].copy_from_slice(&nv.to_le_bytes()); if nv == v { b[8] ^= 1; } b }
+                1 => { let mut b = b0.clone(); for x in b.iter_mut().take(hdr_len) { *x = rng.next() as u8; } b }
+                2 => { let mut b = b0.clone(); let v = u32::from_le_bytes(b[hdr_len - 4..hdr_len].try_into().unwrap()); let rv = rng.next() as u32; let nv = *rng.pick(&[v.wrapping_add(1), v.wrapping_sub(1), 0, u32::MAX, v.swap_bytes(), rv]);
+                       b[hdr_len - 4..hdr_len].copy_from_slice(&nv.to_le_bytes()); if nv == v { b[hdr_len - 4] ^= 1; } b }
                 _ => { let m: &[u8] = *rng.pick(&[&b"YARA"[..], &b"YARA-X\0"[..], &b"yara-x\0\0"[..], &b"YARA-X\0\0"[..], &b"\0\0X-ARAY"[..], &b"YARA-X\0\0\x06"[..], &b"YARA-X\0\0\x06\0\0"[..]]);
-                       let mut b = m.to_vec(); if b.len() >= HDR_LEN { b[0] ^= 0x20; } if rng.chance(1, 2) && b.len() < HDR_LEN { /* keep short */ } b }
+                       let mut b = m.to_vec(); if b.len() >= hdr_len { b[0] ^= 0x20; } if rng.chance(1, 2) && b.len() < hdr_len { /* keep short */ } b }
             };
-            if blob.len() >= HDR_LEN && blob[..HDR_LEN] == b0[..HDR_LEN] { continue; }
+            if blob.len() >= hdr_len && blob[..hdr_len] == b0[..hdr_len] { continue; }
             let o = classify(&blob);
             stats.inc(&format!("c_foreign_{}", match &o { Ocl::Format => "format", Ocl::Version(..) => "version", Ocl::Ok => "ACCEPTED", Ocl::Panic => "PANIC", _ => "other" }));
-            let first = &blob[..blob.len().min(16)];
+            let first = &blob[..blob.len().min(hdr_len + 4)];
             let replay = format!("{{\"stream\":\"c-foreign\",\"blob_len\":{},\"first_bytes_hex\":\"{}\",\"blob_hex_if_short\":\"{}\",\"based_on_source\":{},\"outcome\":{}}}",
                 blob.len(), hex(first), if blob.len() <= 64 { hex(&blob) } else { String::new() }, if kind == 1 || kind == 2 { src_json.clone() } else { "null".into() }, json_str(&format!("{:?}", o)));
             shards.push(format!("CForeign {} {}", coq_bytes(first), coq_ocl(&o)), replay);
